@@ -523,7 +523,9 @@ pub fn decoy_registry(name: &str) -> Option<&'static PortableRegistry> {
         .map(|e| &e.reg)
 }
 pub const DECOY_SELF_DEFAULT: &str = "self:default-settings";
+pub const DECOY_SELF_OTHER_ALLOC: &str = "self:other-custom-alloc-path";
 pub const DECOY_NAMES: &[&str] = &[
+    DECOY_SELF_OTHER_ALLOC,
     "fam:generics1",
     "fam:compact",
     DECOY_SELF_DEFAULT,
@@ -558,7 +560,17 @@ impl ExecSpec {
 
 pub fn run_exec(reg: &PortableRegistry, sw: &Switches, e: &ExecSpec) -> (Result<Obs, String>, entropy::ThreadStats) {
     entropy::execution(e.entropy, || {
-        if e.decoy.as_deref() == Some(DECOY_SELF_DEFAULT) {
+        if e.decoy.as_deref() == Some(DECOY_SELF_OTHER_ALLOC) {
+            // the observed registry under the same history but another custom alloc crate path
+            // (state keyed by "custom or not" instead of by the path itself would be stale)
+            let mut b = Builders::new();
+            for op in &e.ops {
+                let _ = b.apply(op);
+            }
+            let mut sw2 = sw.clone();
+            sw2.alloc = Some("::decoy_alloc::nested".into());
+            let _ = observe::gen_tokens(reg, &sw2.settings(b));
+        } else if e.decoy.as_deref() == Some(DECOY_SELF_DEFAULT) {
             // the observed registry itself, under default settings (keyed-by-id or by-path state
             // from a generation with other settings would be stale afterwards)
             let settings = Switches {
@@ -1347,6 +1359,12 @@ pub fn proc_job(doc: &Value, warm: bool) -> Result<String, String> {
             }
             let heavy = Switches::standard().settings(b);
             let _ = observe::gen_tokens(&reg, &heavy);
+            let other_alloc = Switches {
+                alloc: Some("::decoy_alloc::nested".into()),
+                ..Switches::standard()
+            }
+            .settings(Builders::new());
+            let _ = observe::gen_tokens(&reg, &other_alloc);
             let _ = observe::dedup(&reg);
         });
     }
